@@ -41,9 +41,19 @@ reg("C19", "rules_arith", "check_C19", "other",
     "R51 (S/X): every form of % is a - trunc(a/b)*b at operator level and all spellings agree bit-for-bit. R52 (N): div_euclid / rem_euclid decision trees equal the floor/ceil adjustment table. Numeric tolerances are not decided.",
     COMMON_ASSUME + ["accuracy of the composed operations (C03-C05, C08) is not re-derived here"])
 
+reg("C10", "rules_c10", "check_C10", "proof",
+    "obligations = one per operator spelling (R13), compound assignment (R14), algebraic identity (R15), num_traits method with an inherent counterpart (R16), Sum (R7)",
+    "Program-equivalence proofs by normalisation: R13/R14 every by-value/by-reference/compound-assignment spelling of + - * / % (TwoFloat and f64 operands), Neg, Inv, Pow has the identical IEEE-operation normal form (algebra E, bit-for-bit incl. signed zeros); R15 commutativity / antisymmetry identities with 2Sum/2Prod as conformance-identified error-free primitives (E bit-exact; three identities hold only modulo the sign of zero words = recorded known finding K1); R16 every num_traits entry point returns exactly its inherent counterpart / constant; R7 Sum is fold(0,+).",
+    COMMON_ASSUME + ["identities are for finite non-overflowing evaluations (EFT commutativity is a theorem there); NaN payload bits not considered", "Float::copysign's default body equals the inherent one by review, not by graph"])
+
+reg("C11", "rules_c11", "check_C11", "proof",
+    "obligations = fma provider/argument order per configuration (R5) + one per function body and constant present in both configurations (R25)",
+    "R5: in each configuration the crate's fma is a single call provider(x,y,z) to f64::mul_add (std) / libm::fma (no_std, MinGW branch) and is the only place reaching a fused multiply-add. R25: every other function body has the identical op-level decision tree (fallback: identical canonicalised MIR) and every constant the identical bits in both configurations; items in one configuration only are outside the numeric API. Hence the configurations differ only in which correctly rounded FMA they call.",
+    COMMON_ASSUME + ["both trusted FMAs are correctly rounded (a property of core/libm, not of this repository)", "the MinGW target itself cannot be compiled here; its fma branch is configuration B"])
+
 def main(argv):
     if not argv:
-        print(__doc__); return 2
+        print('usage: check <ID>|all [--tier quick|thorough]'); return 2
     pid = argv[0]
     tier = os.environ.get("VERIF_TIER", "quick")
     if "--tier" in argv:
